@@ -907,6 +907,24 @@ func c14HasMissing(c *Ctx) {
 				bad = append(bad, fmt.Sprintf("return at %s answers (%v, %v) after the stat request failed with an error that is not 'missing'", c.pos(ret.Pos()), results[0], results[1]))
 			}
 		}
+		isCodeCmp := func(v ssa.Value) bool {
+			if bo, ok := v.(*ssa.BinOp); ok && bo.Op == token.EQL {
+				for _, o := range []ssa.Value{bo.X, bo.Y} {
+					if k, isK := o.(*ssa.Const); isK && k.Value != nil && k.Value.Kind() == constant.String {
+						return true
+					}
+				}
+			}
+			return false
+		}
+		// a code comparison computed as a value (the last operand of "a == x || a == y" returned by a
+		// helper, or hoisted into a variable) is labelled, so that the branch that later tests it is
+		// recognised as well
+		h.Instr = func(st *State, ins ssa.Instruction) {
+			if v, ok := ins.(ssa.Value); ok && isCodeCmp(v) && st.Eval(v).B == BUnk {
+				st.V[v] = Val{Sym: "codecmp"}
+			}
+		}
 		h.Branch = func(st *State, iff *ssa.If, taken bool) {
 			// comparisons of the error code with a constant string: the taken "equal" edge is a recognised code
 			if cm, truth, ok := cmpOf(iff.Cond); ok && cm.op == token.EQL {
@@ -915,6 +933,18 @@ func c14HasMissing(c *Ctx) {
 						st.Flags["matched-code"] = 1
 					}
 				}
+				return
+			}
+			cond := iff.Cond
+			for {
+				if u, ok := cond.(*ssa.UnOp); ok && u.Op == token.NOT {
+					cond, taken = u.X, !taken
+					continue
+				}
+				break
+			}
+			if taken && st.Eval(cond).Sym == "codecmp" {
+				st.Flags["matched-code"] = 1
 			}
 		}
 		Explore(fn, fn.Blocks[0], 0, nil, NewState(), h)
@@ -1000,19 +1030,10 @@ func retryBodyFresh(c *Ctx, want func(fnKey string) bool) {
 			}
 			n++
 			key := fnKey(fn) + ":request-body"
-			for {
-				if ct, ok := g.(*ssa.ChangeType); ok {
-					g = ct.X
-					continue
-				}
-				break
-			}
+			cls := closuresOfValue(g)
 			var cl *ssa.Function
-			switch x := g.(type) {
-			case *ssa.MakeClosure:
-				cl = x.Fn.(*ssa.Function)
-			case *ssa.Function:
-				cl = x
+			if len(cls) == 1 {
+				cl = cls[0]
 			}
 			if cl == nil || cl.Blocks == nil {
 				c.bad(key, call.Pos(), "the request body function is not a function literal; cannot show that it creates a new reader per attempt")
